@@ -37,7 +37,7 @@ M = [
     ("C04", "round-mask", "dissect/cstruct/types/structure.py", "                offset += -offset & (field.alignment - 1)\n\n            # The alignment of this struct", "                offset += -offset & (field.alignment - 1) if field.alignment != 8 else -offset & 3\n\n            # The alignment of this struct"),
     ("C04", "int24-align", "dissect/cstruct/cstruct.py", '"uint24": self._make_int_type("uint24", 3, False, alignment=4)', '"uint24": self._make_int_type("uint24", 3, False, alignment=2)'),
     ("C04", "union-tail-skipped", "dissect/cstruct/types/structure.py", "            size += -size & (alignment - 1)\n\n        return size, alignment", "            pass\n\n        return size, alignment"),
-    ("C04", "sizeof-alignment", "dissect/cstruct/expression.py", "queue.append(len(self.cstruct.resolve(tmp_expression[i + 2])))", "queue.append(self.cstruct.resolve(tmp_expression[i + 2]).alignment or 0)"),
+    ("C04", "sizeof-alignment", "dissect/cstruct/expression.py", 'queue.append(len(self.cstruct.resolve(" ".join(tmp_expression[i + 2 : end]))))', 'queue.append(self.cstruct.resolve(" ".join(tmp_expression[i + 2 : end])).alignment or 0)'),
     ("C04", "array-align-total", "dissect/cstruct/cstruct.py", "return cast(type[Array], self._make_type(name, bases, size, alignment=type_.alignment, attrs=attrs))", "return cast(type[Array], self._make_type(name, bases, size, alignment=(size if size in (2, 4, 8) else type_.alignment), attrs=attrs))"),
     ("C07", "max0-dropped", "dissect/cstruct/types/base.py", "num = max(0, cls.num_entries.evaluate(context))", "num = cls.num_entries.evaluate(context)"),
     ("C07", "terminator-not-consumed", "dissect/cstruct/types/packed.py", "            if (value := fmt.unpack(data)[0]) == 0:\n                break", "            if (value := fmt.unpack(data)[0]) == 0:\n                stream.seek(-cls.size, 1)\n                break"),
@@ -70,11 +70,11 @@ M = [
     ("C12", "missing-masks-value", "dissect/cstruct/types/enum.py", "        new_member._name_ = None\n        new_member._value_ = value\n        return new_member", "        new_member._name_ = None\n        new_member._value_ = value & 0xFFFFFFFF\n        return new_member"),
     ("C12", "enum-next-not-incremented", "dissect/cstruct/parser.py", "                else:\n                    nextval = val + 1\n\n                values[key] = val\n\n        if not d[\"type\"]:\n            d[\"type\"] = \"uint32\"\n\n        factory = self.cstruct._make_flag if", "                else:\n                    nextval = val + 2 if val == 5 else val + 1\n\n                values[key] = val\n\n        if not d[\"type\"]:\n            d[\"type\"] = \"uint32\"\n\n        factory = self.cstruct._make_flag if"),
     ("C12", "flag-next-highbit", "dissect/cstruct/parser.py", "                if enumtype == \"flag\":\n                    high_bit = val.bit_length() - 1\n                    nextval = 2 ** (high_bit + 1)\n                else:\n                    nextval = val + 1\n\n                values[key] = val\n\n        if not d[\"type\"]:\n            d[\"type\"] = \"uint32\"\n\n        factory = self.cstruct._make_flag if", "                if enumtype == \"flag\":\n                    high_bit = val.bit_length() - 1\n                    nextval = 2 ** (high_bit + 1) if val & (val - 1) == 0 else 2 ** high_bit\n                else:\n                    nextval = val + 1\n\n                values[key] = val\n\n        if not d[\"type\"]:\n            d[\"type\"] = \"uint32\"\n\n        factory = self.cstruct._make_flag if"),
-    ("C12", "eq-drops-class-check", "dissect/cstruct/types/enum.py", "        if isinstance(other, Enum) and other.__class__ is not self.__class__:\n            return False", "        if False:\n            return False"),
+    ("C12", "eq-drops-class-check", "dissect/cstruct/types/enum.py", "        if isinstance(other.__class__, EnumMetaType) and other.__class__ is not self.__class__:", "        if False:"),
     ("C12", "hash-includes-id", "dissect/cstruct/types/enum.py", "        return hash((self.__class__, self.name, self.value))", "        return hash((self.__class__, self.name, self.value, id(self) if self.name is None else 0))"),
     ("C12", "legacy-numbering", "dissect/cstruct/parser.py", "                    else:\n                        nextval = val + 1\n\n                    values[key] = val", "                    else:\n                        nextval = val + 1 if val else 2\n\n                    values[key] = val"),
     ("C12", "enum-write-array-name", "dissect/cstruct/types/enum.py", "        data = [entry.value if isinstance(entry, _Enum) else entry for entry in array]\n        return cls.type._write_array(stream, data)", "        data = [(entry.value & 0x7FFF) if isinstance(entry, _Enum) else entry for entry in array]\n        return cls.type._write_array(stream, data)"),
-    ("C12", "flag-eq-int-only", "dissect/cstruct/types/flag.py", "        if isinstance(other, Flag) and other.__class__ is not self.__class__:\n            return False", "        if False:\n            return False"),
+    ("C12", "flag-eq-int-only", "dissect/cstruct/types/flag.py", "        if isinstance(other.__class__, EnumMetaType) and other.__class__ is not self.__class__:", "        if False:"),
     ("C19", "gap-after-7", "dissect/cstruct/utils.py", "            if j == 7:\n                values += \" \"", "            if j == 8:\n                values += \" \""),
     ("C19", "printable-upper-dotted", "dissect/cstruct/utils.py", 'print_char = char if char in PRINTABLE else "."', 'print_char = char if char in PRINTABLE and char != "~" else "."'),
     ("C19", "pack-wrong-order-for-bang", "dissect/cstruct/utils.py", "    return value.to_bytes(size, ENDIANNESS_MAP.get(endian, endian), signed=value < 0)", "    return value.to_bytes(size, ENDIANNESS_MAP.get(endian, endian) if endian != '!' or size < 3 else 'little', signed=value < 0)"),
